@@ -10,7 +10,9 @@ function of output `o` with symbol `g` is the term constructor `g(arg,…)`.
     iter <k>… | zip <k>…          looped keys            form df|lists      cache on|off
     gatecache on|off  clearonfail on|off      cache policy of the library on refused / failed runs
     startabort on|off                         does a failing starting node abort the composite run
-    begin                          make the for-node
+    mapkeys <k>…                   keys of the output_column_map argument
+    checkcols on|off               does class creation refuse column names that are not pairwise distinct
+    begin                          make the for-node class and instance  → children | mk err <kind>
     set <k> nd | one <v> | many <v>…
     run <completed body indices>   → res / outputs / children      (runq: without children)
     data <k> missing|nolen|<n>    then   maps <-|=k,k,…> <-|=k,…>   (pure `dictionary_to_index_maps`)
@@ -26,6 +28,8 @@ structure DSt where
   gateCache : Bool := false
   clearOnFail : Bool := false
   startAbort : Bool := false
+  mapKeys : List String := []
+  checkCols : Bool := false
   cur : Cur String String := []
   st : St String String := { children := [], outs := .df none, cached := none }
   begun : Bool := false
@@ -43,6 +47,8 @@ def DSt.spec (d : DSt) : Spec String String :=
     clearOnFail := d.clearOnFail
     startAbort := d.startAbort
     colmap := fun o => ((d.outs.lookup o).map (·.2)).getD o
+    mapKeys := d.mapKeys
+    checkCols := d.checkCols
     bodyFn := fun o args => (((d.outs.lookup o).map (·.1)).getD "?") ++ "(" ++ ",".intercalate args ++ ")"
     listVal := fun vs => "[" ++ ",".intercalate vs ++ "]" }
 
@@ -54,6 +60,10 @@ def showRes : Res → String
   | .readiness => "res err Readiness"
   | .failedChild => "res err FailedChild"
   | .raised e => "res err " ++ showErr e
+  | .labelClash => "res err LabelClash"
+
+def showMkErr : MkErr → String
+  | .unmapped => "mk err Unmapped" | .nonexistent => "mk err Nonexistent" | .columns => "mk err Columns"
 
 def showList (o : Option (List String)) : String :=
   match o with
@@ -120,14 +130,20 @@ def step (d : DSt) (ws : List String) : DSt × List String :=
   | ["startabort", "on"] => if d.begun then (d, ["bad-op"]) else ({ d with startAbort := true }, [])
   | ["startabort", "off"] => if d.begun then (d, ["bad-op"]) else ({ d with startAbort := false }, [])
   | ["clearonfail", "off"] => if d.begun then (d, ["bad-op"]) else ({ d with clearOnFail := false }, [])
+  | ["checkcols", "on"] => if d.begun then (d, ["bad-op"]) else ({ d with checkCols := true }, [])
+  | ["checkcols", "off"] => if d.begun then (d, ["bad-op"]) else ({ d with checkCols := false }, [])
+  | "mapkeys" :: ks => if d.begun then (d, ["bad-op"]) else ({ d with mapKeys := ks }, [])
   | ["begin"] =>
     if d.begun then (d, ["bad-op"]) else
     let sp := d.spec
     let cur : Cur String String := d.ins.map fun (k, dflt) =>
       if k ∈ d.iterOn ++ d.zipOn then (k, .nd)
       else (k, match dflt with | some v => .one v | none => .nd)
-    let d' := { d with begun := true, cur, st := init sp }
-    (d', [showChildren d'.st.children])
+    match mk sp with
+    | .error e => (d, [showMkErr e])      -- no class, no node: everything that follows is refused
+    | .ok st =>
+      let d' := { d with begun := true, cur, st }
+      (d', [showChildren d'.st.children])
   | ["set", k, "nd"] =>
     if d.begun ∧ k ∈ d.cur.map (·.1) then ({ d with cur := setCur d.cur k .nd }, []) else (d, ["bad-op"])
   | ["set", k, "one", v] =>
